@@ -56,6 +56,21 @@ fn publish_props() -> Vec<Option<PublishProperties>> {
             content_type: if mask & 128 != 0 { Some("text/plain".into()) } else { None },
         }));
     }
+    // several SHORT subscription identifiers (each one byte on the wire), alone and followed by another property
+    for ids in [vec![1usize], vec![1, 2, 3], vec![5, 5, 5, 5, 5], vec![127, 128, 1, 1]] {
+        for tail in [false, true] {
+            out.push(Some(PublishProperties {
+                payload_format_indicator: None,
+                message_expiry_interval: None,
+                topic_alias: None,
+                response_topic: None,
+                correlation_data: None,
+                user_properties: vec![],
+                subscription_identifiers: ids.clone(),
+                content_type: if tail { Some("".into()) } else { None },
+            }));
+        }
+    }
     out
 }
 
